@@ -4,8 +4,18 @@ Driver ops for C01 (laminate):
 reply:  ok <t> <A: 9> <B: 9> <D: 9>       (order q11 q12 q22 q16 q26 q66 q44 q45 q55)
         err noThickness | noLaminaprop | badLaminaprop | parse
   prop <list>      -> ok e1 e2 nu12 g12 g13 g23 e3 nu13 nu23 | err
+  mat <list>       -> ok <c: 9> <q: 12> <u: 45 row-major> | err badLaminaprop       (MatLamina.rebuild)
+  lam <ctor> # <step> # <step> …         one `Laminate` OBJECT and a sequence of method calls / assignments on it
+     ctor : fresh
+          | stack <the six |-fields of `stack`>
+          | lp <thickness> | <laminaprop> | <xiA1..4 xiB1..4 xiD1..4 xiE1..4>
+     step : cc | rebuild | clp | abde | fbal | fsymlp | forth | fsym | eqmod          (the modelled methods)
+          | offset <q> | matobj <laminaprop> | trig <c2 s2 c4 s4 ; …> | xiA <5> | xiB <5> | xiD <5> | xiE <5> | t <q>
+     reply: one snapshot per stage (constructor first), joined by ` # `:
+          <ok | err Kind> ; t ; e1 e2 g12 nu12 nu21 ; xiA ; xiB ; xiD ; xiE ; A ; B ; D ; E ; ABD ; ABDE ; AG ; BG ; DG
+          (`-` for None; matrices row-major).  A constructor that raises: `err <kind>` alone.
 -/
-import CompmechVerif.Model.Laminate
+import CompmechVerif.Model.LaminationParams
 import CompmechVerif.Drv.Proto
 
 namespace Compmech.Drv.C01
@@ -23,6 +33,132 @@ def pairs : List (List ℚ) → Option (List (ℚ × ℚ))
   | [] => some []
   | [c, s] :: r => (pairs r).map fun t => (c, s) :: t
   | _ => none
+
+/-- exact inverse by Gauss–Jordan elimination over ℚ (stands for `np.linalg.inv`; `none` = singular) -/
+def inv6 (M : Mat 6 ℚ) : Option (Mat 6 ℚ) := Id.run do
+  let n := 6
+  let mut a : Array (Array ℚ) := Array.ofFn fun (i : Fin 6) =>
+    (Array.ofFn fun (j : Fin 6) => M i j) ++ (Array.ofFn fun (j : Fin 6) => if i = j then (1 : ℚ) else 0)
+  for col in [0:n] do
+    let mut piv : Option Nat := none
+    for r in [col:n] do
+      if piv.isNone && a[r]![col]! ≠ 0 then piv := some r
+    match piv with
+    | none => return none
+    | some p =>
+      let rowp := a[p]!
+      a := a.set! p a[col]!
+      a := a.set! col rowp
+      let pv := a[col]![col]!
+      a := a.set! col (a[col]!.map (· / pv))
+      for r in [0:n] do
+        if r ≠ col then
+          let f := a[r]![col]!
+          a := a.set! r ((a[r]!.zip a[col]!).map fun xy => xy.1 - f * xy.2)
+  let res := a
+  return some fun i j => res[i.val]![j.val + 6]!
+
+def showOpt (x : Option ℚ) : String := match x with | none => "-" | some v => showQ v
+
+def matList {n : Nat} (M : Mat n ℚ) : List ℚ :=
+  (List.finRange n).flatMap fun i => (List.finRange n).map fun j => M i j
+
+def showMat {n : Nat} (M : Option (Mat n ℚ)) : String :=
+  match M with | none => "-" | some M => showQs (matList M)
+
+def showXi (x : Option (Xi ℚ)) : String :=
+  match x with | none => "-" | some x => showQs [x.x0, x.x1, x.x2, x.x3, x.x4]
+
+def errName : LamError → String
+  | .attributeError => "AttributeError"
+  | .typeError => "TypeError"
+  | .runtimeError => "RuntimeError"
+  | .linAlgError => "LinAlgError"
+  | .zeroDivisionError => "ZeroDivisionError"
+
+def snapshot (L : Lam ℚ) (e : Option LamError) : String :=
+  let st := match e with | none => "ok" | some k => "err " ++ errName k
+  " ; ".intercalate
+    [st, showOpt L.t,
+     " ".intercalate [showOpt L.e1, showOpt L.e2, showOpt L.g12, showOpt L.nu12, showOpt L.nu21],
+     showXi L.xiA, showXi L.xiB, showXi L.xiD, showXi L.xiE,
+     showMat L.A, showMat L.B, showMat L.D, showMat L.E, showMat L.ABD, showMat L.ABDE,
+     showMat L.AG, showMat L.BG, showMat L.DG]
+
+def xiOf : List ℚ → Option (Xi ℚ)
+  | [a, b, c, d, e] => some ⟨a, b, c, d, e⟩
+  | _ => none
+
+def trigsOf : List (List ℚ) → Option (List (Trig ℚ))
+  | [] => some []
+  | [a, b, c, d] :: r => (trigsOf r).map fun t => ⟨a, b, c, d⟩ :: t
+  | _ => none
+
+def setTrigs : List (LPly ℚ) → List (Trig ℚ) → List (LPly ℚ)
+  | p :: ps, g :: gs => { p with trig := some g } :: setTrigs ps gs
+  | ps, _ => ps
+
+/-- one step on the object; `none` = unparsable -/
+def step (L : Lam ℚ) (s : String) : Option (Lam ℚ × Option LamError) :=
+  match words s with
+  | ["cc"] => some (L.calcConstitutiveMatrix, none)
+  | ["rebuild"] => some (L.rebuild, none)
+  | ["clp"] => some L.calcLaminationParameters
+  | ["abde"] => some L.calcABDEFromLP
+  | ["fbal"] => some L.forceBalancedLP
+  | ["fsymlp"] => some L.forceSymmetricLP
+  | ["forth"] => some L.forceOrthotropic
+  | ["fsym"] => some L.forceSymmetric
+  | ["eqmod"] => some (L.calcEquivalentModulus inv6)
+  | ["offset", v] => (parseQ? v).map fun d => ({ L with offset := d }, none)
+  | ["t", v] => (parseQ? v).map fun d => ({ L with t := some d }, none)
+  | "matobj" :: r =>
+    match r.mapM parseQ? with
+    | some p => (readLaminaprop p).map fun m => ({ L with matobj := some m }, none)
+    | none => none
+  | "trig" :: r =>
+    match (parseQss? (" ".intercalate r)).bind trigsOf with
+    | some ts => some ({ L with plies := setTrigs L.plies ts }, none)
+    | none => none
+  | "xiA" :: r => ((r.mapM parseQ?).bind xiOf).map fun x => ({ L with xiA := some x }, none)
+  | "xiB" :: r => ((r.mapM parseQ?).bind xiOf).map fun x => ({ L with xiB := some x }, none)
+  | "xiD" :: r => ((r.mapM parseQ?).bind xiOf).map fun x => ({ L with xiD := some x }, none)
+  | "xiE" :: r => ((r.mapM parseQ?).bind xiOf).map fun x => ({ L with xiE := some x }, none)
+  | _ => none
+
+def runSteps : Lam ℚ → List String → List String → String
+  | _, [], acc => " # ".intercalate acc.reverse
+  | L, s :: ss, acc =>
+    match step L s with
+    | none => "err parse"
+    | some (L', e) => runSteps L' ss (snapshot L' e :: acc)
+
+def ctor (s : String) : Except String (Lam ℚ × Option LamError) :=
+  let s := s.trimAscii.toString
+  if s = "fresh" then .ok (Lam.fresh, none)
+  else if s.startsWith "stack " then
+    match fields ((s.drop 6).toString) with
+    | [off, plyt, lp, plyts, lps, cs] =>
+      match parseQ? off, optQ plyt, optQs lp, parseQs? plyts, parseQss? lps, (parseQss? cs).bind pairs with
+      | some off, some plyt, some lp, some plyts, some lps, some cs =>
+        match readStackLam cs plyt lp plyts lps off with
+        | .ok L => .ok (L, none)
+        | .error .noThickness => .error "err noThickness"
+        | .error .noLaminaprop => .error "err noLaminaprop"
+        | .error .badLaminaprop => .error "err badLaminaprop"
+      | _, _, _, _, _, _ => .error "err parse"
+    | _ => .error "err parse"
+  else if s.startsWith "lp " then
+    match fields ((s.drop 3).toString) with
+    | [th, lp, xis] =>
+      match parseQ? th, parseQs? lp, parseQs? xis with
+      | some th, some lp, some [a1, a2, a3, a4, b1, b2, b3, b4, d1, d2, d3, d4, e1, e2, e3, e4] =>
+        match readLaminationParameters th lp ⟨a1, a2, a3, a4⟩ ⟨b1, b2, b3, b4⟩ ⟨d1, d2, d3, d4⟩ ⟨e1, e2, e3, e4⟩ with
+        | some r => .ok r
+        | none => .error "err badLaminaprop"
+      | _, _, _ => .error "err parse"
+    | _ => .error "err parse"
+  else .error "err parse"
 
 def handle (op : String) (rest : String) : String :=
   match op with
@@ -45,6 +181,27 @@ def handle (op : String) (rest : String) : String :=
       | some m => "ok " ++ showQs [m.e1, m.e2, m.nu12, m.g12, m.g13, m.g23, m.e3, m.nu13, m.nu23, m.nu21]
       | none => "err badLaminaprop"
     | none => "err parse"
+  | "mat" =>
+    match parseQs? rest with
+    | some p =>
+      match readLaminaprop p with
+      | some m =>
+        let c := matC m
+        let q := matQ m
+        let U := uMat m
+        let row (r : Xi ℚ) : List ℚ := [r.x0, r.x1, r.x2, r.x3, r.x4]
+        "ok " ++ showQs ([c.c11, c.c12, c.c13, c.c22, c.c23, c.c33, c.c44, c.c55, c.c66]
+          ++ [q.q11, q.q12, q.q13, q.q21, q.q22, q.q23, q.q31, q.q32, q.q33, q.q44, q.q55, q.q66]
+          ++ row U.r0 ++ row U.r1 ++ row U.r2 ++ row U.r3 ++ row U.r4 ++ row U.r5 ++ row U.r6 ++ row U.r7 ++ row U.r8)
+      | none => "err badLaminaprop"
+    | none => "err parse"
+  | "lam" =>
+    match rest.splitOn "#" with
+    | c :: steps =>
+      match ctor c with
+      | .error e => e
+      | .ok (L, e) => runSteps L steps [snapshot L e]
+    | [] => "err parse"
   | _ => "err unknown-op"
 
 end Compmech.Drv.C01
